@@ -195,9 +195,12 @@ def handleRun (j : Json) : R String := do
   let lits ← parseLits j
   let eqs ← (← arr j "eqs").toList.mapM fun e => do
     let lhs ← str e "lhs"
+    let off := match e.getObjVal? "off" with
+      | .ok v => v.getInt?.toOption.getD 0
+      | .error _ => 0
     let rhs ← parseExpr (← obj e "rhs")
-    pure (lhs, rhs)
-  let prog : Prog := eqs.map fun (lhs, rhs) => (num lhs, rhs.map num)
+    pure (lhs, off, rhs)
+  let prog : Prog := eqs.map fun (lhs, off, rhs) => ((num lhs, off), rhs.map num)
   let n ← nat j "n"
   let rows ← (← arr j "vals").toList.mapM fun r => floats r
   let nrows := names.length
@@ -208,7 +211,7 @@ def handleRun (j : Json) : R String := do
   let call ← obj j "call"
   let kind ← str call "call"
   let T := tower lits
-  let safe := eqs.all fun (_, rhs) => kindSafe exact4Std rhs
+  let safe := eqs.all fun (_, _, rhs) => kindSafe exact4Std rhs
   let safeStr := if safe then "safe" else "unsafe"
   -- optional record left by earlier calls on the same instance (operation histories)
   let st0 ← match optObj j "status" with
@@ -232,6 +235,16 @@ def handleRun (j : Json) : R String := do
     pure (worldStr ftag (withUser w0 uf) ++ " ## " ++ worldStr ptag (withUser w0 up) ++ " ## " ++ safeStr)
   | "solve_t" =>
     let t ← int call "t"
+    let (o, tol) ← parseOpts (← obj call "opts")
+    let S := mkSpec tol
+    let (wf, rf) := wSolveT (specWrapped T S) o t w0
+    let (wp, rp) := Fsic.solveT (pyInterp (ops8 lits) S) o n t w0
+    pure (worldStr (wTag rf) wf ++ " ## " ++ worldStr (wTag (ofResult rp)) wp ++ " ## " ++ safeStr)
+  | "solve_period" =>
+    let t ← int call "t"
+    -- `solve_period(label)`: the span is 0..n-1, so a label is its position; an unknown label is KeyError on both sides
+    if t < 0 ∨ t ≥ n then
+      return (worldStr "KeyError" w0 ++ " ## " ++ worldStr "KeyError" w0 ++ " ## " ++ safeStr)
     let (o, tol) ← parseOpts (← obj call "opts")
     let S := mkSpec tol
     let (wf, rf) := wSolveT (specWrapped T S) o t w0
